@@ -6,6 +6,7 @@ package ruleguard
 // external harness drive unexported pieces of the engine. Not part of the API.
 
 import (
+	"fmt"
 	"go/ast"
 	"go/token"
 	"go/types"
@@ -75,4 +76,23 @@ func VerifMultiMatch() []bool {
 	out := make([]bool, len(multiMatchTags))
 	copy(out, multiMatchTags[:])
 	return out
+}
+
+// VerifBuckets dumps rulesByTag of the engine's current rule set: per tag, "group:line" of every
+// rule filed there, in order; plus the comment rules.
+func VerifBuckets(e *Engine) (byTag [][]string, comment []string) {
+	if e.impl.ruleSet == nil {
+		return nil, nil
+	}
+	u := e.impl.ruleSet.universal
+	byTag = make([][]string, len(u.rulesByTag))
+	for tag, rules := range u.rulesByTag {
+		for _, r := range rules {
+			byTag[tag] = append(byTag[tag], fmt.Sprintf("%s:%d", r.group.Name, r.line))
+		}
+	}
+	for _, r := range u.commentRules {
+		comment = append(comment, fmt.Sprintf("%s:%d", r.base.group.Name, r.base.line))
+	}
+	return byTag, comment
 }
